@@ -18,9 +18,8 @@
 /* Return the next linear probe index */
 #define MAP_PROBE_NEXT(map, index)  MAP_SIZE_MOD(map, (index) + 1)
 
-/* Check if index b is less than or equal to index a */
-#define MAP_INDEX_LE(map, a, b)     \
-    ((a) == (b) || (((b) - (a)) & ((map)->table_size >> 1)) != 0)
+/* Circular distance (number of probe steps) from index a to index b */
+#define MAP_INDEX_DIST(map, a, b)   MAP_SIZE_MOD(map, (b) - (a))
 
 #define MAP_FOREACH(table, size, fn)  \
     for (map_elem *entry = table; entry < &table[size]; ++entry) { fn }
@@ -237,8 +236,12 @@ static void clear_elem(m_map_t *m, map_elem *removed_entry) {
             break;
         }
         const size_t entry_index = hashmap_calc_index(m, entry->key);
-        /* Shift in entries with an index <= to the removed slot */
-        if (MAP_INDEX_LE(m, removed_index, entry_index)) {
+        /*
+         * Shift in the entry unless its home slot lies (circularly)
+         * after the removed slot, up to the entry itself: only then
+         * it would no longer be reachable from its home slot.
+         */
+        if (MAP_INDEX_DIST(m, entry_index, index) >= MAP_INDEX_DIST(m, removed_index, index)) {
             memcpy(removed_entry, entry, sizeof(map_elem));
             removed_index = index;
             removed_entry = entry;
